@@ -13,7 +13,7 @@ TEXT = {
  },
  "C09": {
   "level": "Exploration: every listed word is run on boundary/random operand tuples of every type combination and the outcome (value, wrap-or-overflow, division error, type-error payload) is compared with an exact oracle (checked i128, u128 wrap, own int->real and round implementations), in release and overflow-checked builds.",
-  "note": "Trusts Rust f64 + - * / % as the IEEE reference for the real path. NaN is not fed to comparisons.",
+  "note": "Main shard trusts Rust f64 + - * / % as the IEEE reference for the real path; the shard pyvec takes every expected result from Python's unbounded integers and doubles instead. NaN is not fed to comparisons.",
   "technique": "differential monitor against an exact-arithmetic oracle over boundary-value operand tuples",
  },
  "C18": {
